@@ -141,7 +141,7 @@ def direct_oracle(c: B.Case):
 def gen_cases(run: Run, n: int):
     rng = run.rng
     g = B.GenX(rng, leak_p=0.0)
-    modes = ["asis"] * 2 + ["after_failed_build"] * 3 + ["permute"] * 4 + ["subset"] * 3 + ["extra"] * 3 + ["varied_types"] * 4 + ["generated_name_of_missing"] * 2 + ["output_name_clash"] * 3 + ["after_build_under_other_names"] * 4 + ["bad_input_kind", "bad_output_kind", "non_argument_input", "no_outputs"]
+    modes = ["asis"] * 2 + ["after_failed_build"] * 3 + ["permute"] * 4 + ["subset"] * 3 + ["extra"] * 3 + ["varied_types"] * 4 + ["generated_name_of_missing"] * 2 + ["output_name_clash"] * 3 + ["after_build_under_other_names"] * 4 + ["many_outputs"] * 3 + ["bad_input_kind", "bad_output_kind", "non_argument_input", "no_outputs"]
     cases = []
     while len(cases) < n:
         ins, outs = g.program()
@@ -178,6 +178,20 @@ def gen_cases(run: Run, n: int):
             c.pre = first
             cases.append(c)
             continue
+        if mode == "many_outputs":
+            # a dozen further outputs (two-digit positions), each a DIFFERENT value of one argument: every
+            # output name carries the value of the Var it was given
+            import numpy as np
+            fl = [v for v in ins.values() if isinstance(v.type, B.Tensor) and v.type.dtype == np.dtype(np.float32) and v.type.shape is not None]
+            if fl:
+                src = fl[0]
+                more = {}
+                for k in range(12):
+                    y = B.op17.mul(src, B.op17.const(np.array(float(k + 2), np.float32)))
+                    more[f"m_{'lcakebjdfhgi'[k]}"] = B.op17.neg(y) if k % 3 == 2 else y
+                cases.append(B.Case(dict(ins), {**outs, **more}, rng.random() < 0.5, {"mode": mode, "legal": True}))
+                continue
+            mode = "asis"
         i2, o2, drop = make_request(rng, ins, outs, mode)
         cases.append(B.Case(i2, o2, drop, {"mode": mode, "legal": mode != "output_name_clash"}))   # a name clash may be refused
     return cases, g.hist
@@ -213,7 +227,9 @@ def run(run: Run) -> int:
                  "(an argument is not an output of its node)", B.describe(bad))
     mode_hist, out_hist = collections.Counter(), collections.Counter()
     distinct = set()
-    n_bad = 0
+    n_bad = n_values = 0
+    import numpy as np
+    nprng = np.random.RandomState(run.seed)
     for i, c in enumerate(cases):
         mode_hist[c.meta["mode"] + ("/drop" if c.drop else "")] += 1
         out_hist[c.impl.split(" ")[1] if c.impl.startswith("ERR") else "model"] += 1
@@ -224,6 +240,15 @@ def run(run: Run) -> int:
             n_bad += 1
             kind = "input-order" if "graph inputs" in probs[0] and c.drop else probs[0].split(":")[0][:40].replace(" ", "-")
             run.fail("impl", f"C03/{kind}", probs[0][:200], {"problems": probs, "case": B.describe(c)})
+        elif c.model_proto is not None and (i % 3 == 0 or c.meta["mode"] == "many_outputs") and all(
+                isinstance(v.type, B.Tensor) and np.dtype(v.type.dtype).kind in "fiub" for v in list(c.ins.values()) + list(c.outs.values())):
+            # ... each output carrying the VALUE of the Var it was given: onnxruntime on the built model vs numpy on the object graph
+            from harness import c01
+            p = c01.semantic_oracle(c, nprng, trials=1)
+            n_values += 1
+            if p and "!=" in p:
+                n_bad += 1
+                run.fail("impl", "C03/output-carries-another-value", p[:300], {"problem": p, "case": B.describe(c)})
     for i in mism[:5]:
         run.fail("corr", f"C03/model-vs-impl/{i}", "model and implementation disagree on the emitted model / exception class",
                  B.describe(cases[i]))
@@ -249,7 +274,7 @@ def run(run: Run) -> int:
         "rule": "random programs x request shapes (permuted, subsets, extra unused arguments, non-Var / non-argument inputs, "
                 "non-Var outputs, empty outputs) x drop_unused_inputs; distinct by (request, outcome); non-trivial = request differs from the generator's",
         "traces_validated_against_impl": len([c for c in cases if c.coq is not None]) - len(mism),
-        "disagreements_checked": len(mism), "input_theorem_premise_met": f"{n_wf} of {len(live)} requests", "direct_oracle_failures": n_bad,
+        "disagreements_checked": len(mism), "input_theorem_premise_met": f"{n_wf} of {len(live)} requests", "direct_oracle_failures": n_bad, "models_executed_for_output_values": n_values,
         "fresh_process_repeats": {"cases": len(idx), "hash_seeds": 4},
         "input_distribution": {"request_modes": dict(mode_hist), "outcomes": dict(out_hist), "operators": hist},
         "samples": [B.describe(c) for c in cases[:2]],
